@@ -544,128 +544,649 @@ Proof.
   unfold decisions, state_after. rewrite (disabled_run checked (disable cfg) h eq_refl). split; reflexivity.
 Qed.
 
-(** * The server *)
-Lemma serve_sim checked cfg a ts : forall st rs,
-  sim cfg st rs -> r_seen rs + N.of_nat (length ts) <= third ->
-  snd (fst (serve_requests checked cfg st a ts)) = snd (fst (spec_requests cfg rs a ts)) /\
-  snd (serve_requests checked cfg st a ts) = snd (spec_requests cfg rs a ts) /\
-  sim cfg (fst (fst (serve_requests checked cfg st a ts))) (fst (fst (spec_requests cfg rs a ts))) /\
-  r_seen (fst (fst (spec_requests cfg rs a ts))) <= r_seen rs + N.of_nat (length ts).
+(** * Histories with configuration changes *)
+(** Simulation between the code's counters and the state of the reference for operation
+    histories.  It does not mention the configuration: it survives every setter. [n] bounds the
+    number of calls made so far. *)
+Record sim2 (n : N) (st : lstate) (qs : qstate) : Prop := {
+  s2_iter : iteration st = q_since qs;
+  s2_start : win_start st = q_start qs;
+  s2_map : forall a, map_get a (conn_map st)
+                     = if count a (q_counted qs) =? 0 then None else Some (count a (q_counted qs));
+  s2_len : N.of_nat (length (q_counted qs)) <= q_seen qs;
+  s2_seen : q_seen qs <= n
+}.
+
+Lemma sim2_init n t0 : sim2 n (init t0) (qinit t0).
 Proof.
-  induction ts as [|t r IH]; intros st rs Hsim Hfit; cbn [serve_requests spec_requests].
-  - cbn [fst snd length]. refine (conj _ (conj _ (conj _ _))); try reflexivity; try assumption; lia.
+  constructor; cbn [init qinit iteration win_start conn_map q_seen q_since q_start q_counted map_get count length];
+    try reflexivity; try lia.
+Qed.
+
+Lemma sim2_mono n m st qs : sim2 n st qs -> n <= m -> sim2 m st qs.
+Proof. intros [H1 H2 H3 H4 H5] Hle. constructor; try assumption. lia. Qed.
+
+Lemma qstep_sim checked cfg n st qs a t :
+  sim2 n st qs -> n + 1 <= third ->
+  snd (register checked cfg st a t) = Ok (snd (qstep cfg qs a t)) /\
+  sim2 (n + 1) (fst (register checked cfg st a t)) (fst (qstep cfg qs a t)).
+Proof.
+  intros [Hit Hst Hmap Hlen Hseen] Hfit. unfold register, qstep.
+  destruct (N.eqb_spec (check_every cfg) usize_max) as [Hd|Hd].
+  { cbn [fst snd]. split; [reflexivity|]. constructor; try assumption. lia. }
+  set (k := check_every cfg) in *. unfold due. rewrite Hit.
+  assert (Hs : (q_since qs + 1 <? k) = negb (k <=? q_since qs + 1)) by lia.
+  rewrite Hs. destruct (k <=? q_since qs + 1) eqn:Hdue; cbn [negb].
+  2:{ cbn [fst snd]. split; [reflexivity|].
+      constructor; cbn [iteration win_start conn_map q_seen q_since q_start q_counted]; try assumption; try reflexivity; lia. }
+  rewrite Hst.
+  destruct (window_over (reset_after cfg) (t - q_start qs)).
+  { cbn [fst snd]. split; [reflexivity|].
+    constructor; cbn [iteration win_start conn_map q_seen q_since q_start q_counted map_get count length];
+      try reflexivity; try lia. }
+  pose proof (count_le_length a (q_counted qs)) as Hc.
+  unfold entry_bump. rewrite (Hmap a).
+  set (c := count a (q_counted qs)) in *.
+  assert (Hnew : count a (a :: q_counted qs) = c + 1).
+  { cbn [count]. rewrite N.eqb_refl. fold c. lia. }
+  assert (Hinc : match (if c =? 0 then None else Some c) with
+                 | None => Ok (1, map_set a 1 (conn_map st))
+                 | Some c0 => match inc_usize checked c0 with
+                              | Ok c' => Ok (c', map_set a c' (conn_map st))
+                              | Err e => Err e
+                              | Panic => Panic
+                              end
+                 end = Ok (c + 1, map_set a (c + 1) (conn_map st))).
+  { destruct (N.eqb_spec c 0) as [E|E].
+    - rewrite E. reflexivity.
+    - unfold inc_usize. rewrite usize_val. unfold third in Hfit.
+      replace (c + 1 <=? 18446744073709551615) with true by lia. reflexivity. }
+  rewrite Hinc. rewrite Hnew.
+  assert (Hsim' : sim2 (n + 1) {| iteration := 0; win_start := q_start qs; conn_map := map_set a (c + 1) (conn_map st) |}
+                      {| q_seen := q_seen qs + 1; q_since := 0; q_start := q_start qs; q_counted := a :: q_counted qs |}).
+  { constructor; cbn [iteration win_start conn_map q_seen q_since q_start q_counted].
+    - reflexivity.
+    - reflexivity.
+    - intros b. destruct (N.eq_dec a b) as [E|E].
+      + subst b. rewrite map_get_set_same, Hnew.
+        destruct (N.eqb_spec (c + 1) 0); [lia|reflexivity].
+      + rewrite (map_get_set_other a b _ _ E), (Hmap b). cbn [count].
+        destruct (N.eqb_spec a b); [contradiction|]. rewrite N.add_0_l. reflexivity.
+    - cbn [length]. lia.
+    - lia. }
+  unfold ladder.
+  destruct (N.leb_spec (c + 1) (max_requests cfg)) as [Hle|Hgt].
+  { cbn [fst snd]. split; [reflexivity|exact Hsim']. }
+  unfold mul3_usize. rewrite usize_val. unfold third in Hfit.
+  replace (3 * max_requests cfg <=? 18446744073709551615) with true by lia.
+  destruct (c + 1 <=? 3 * max_requests cfg); cbn [fst snd]; (split; [reflexivity|exact Hsim']).
+Qed.
+
+Lemma run_ops_sim checked ops : forall cfg n st qs,
+  sim2 n st qs -> n + N.of_nat (length ops) <= third ->
+  snd (run_ops checked cfg st ops) = map Ok (snd (ref_ops cfg qs ops)) /\
+  sim2 (n + N.of_nat (length ops)) (snd (fst (run_ops checked cfg st ops))) (snd (fst (ref_ops cfg qs ops))) /\
+  fst (fst (run_ops checked cfg st ops)) = config_after cfg ops /\
+  fst (fst (ref_ops cfg qs ops)) = config_after cfg ops.
+Proof.
+  induction ops as [|o r IH]; intros cfg n st qs Hsim Hfit.
+  - cbn [run_ops ref_ops fst snd map length config_after].
+    refine (conj eq_refl (conj _ (conj eq_refl eq_refl))). eapply sim2_mono; [exact Hsim|lia].
   - cbn [length] in Hfit.
-    destruct (step_sim checked cfg st rs a t Hsim) as (Hd & Hs & Hle & _); [lia|].
-    destruct (register checked cfg st a t) as [st1 d]. destruct (ref_step cfg rs a t) as [rs1 d'].
-    cbn [fst snd] in *. subst d.
-    destruct (IH st1 rs1 Hs) as (H1 & H2 & H3 & H4); [lia|].
-    destruct d'.
-    + destruct (serve_requests checked cfg st1 a r) as [[st2 l] c].
-      destruct (spec_requests cfg rs1 a r) as [[rs2 l'] c']. cbn [fst snd length] in *.
-      refine (conj _ (conj _ (conj _ _))); try congruence; try assumption; lia.
-    + destruct (serve_requests checked cfg st1 a r) as [[st2 l] c].
-      destruct (spec_requests cfg rs1 a r) as [[rs2 l'] c']. cbn [fst snd length] in *.
-      refine (conj _ (conj _ (conj _ _))); try congruence; try assumption; lia.
-    + cbn [fst snd length]. refine (conj _ (conj _ (conj _ _))); try reflexivity; try assumption; lia.
+    assert (Hnr : forall c',
+      snd (run_ops checked c' st r) = map Ok (snd (ref_ops c' qs r)) /\
+      sim2 (n + N.of_nat (S (length r))) (snd (fst (run_ops checked c' st r))) (snd (fst (ref_ops c' qs r))) /\
+      fst (fst (run_ops checked c' st r)) = config_after c' r /\
+      fst (fst (ref_ops c' qs r)) = config_after c' r).
+    { intros c'. destruct (IH c' n st qs Hsim ltac:(lia)) as (H1 & H2 & H3 & H4).
+      refine (conj H1 (conj _ (conj H3 H4))). eapply sim2_mono; [exact H2|lia]. }
+    destruct o as [a t|m|k|rr|]; [|cbn [run_ops ref_ops config_after length]; apply Hnr..].
+    cbn [run_ops ref_ops config_after op_cfg length].
+    destruct (qstep_sim checked cfg n st qs a t Hsim ltac:(lia)) as [Hd Hs].
+    destruct (register checked cfg st a t) as [st1 d]. destruct (qstep cfg qs a t) as [qs1 d'].
+    cbn [fst snd] in *.
+    destruct (IH cfg (n + 1) st1 qs1 Hs ltac:(lia)) as (H1 & H2 & H3 & H4).
+    destruct (run_ops checked cfg st1 r) as [[c2 st2] ds]. destruct (ref_ops cfg qs1 r) as [[c2' qs2] ds'].
+    cbn [fst snd map] in *.
+    refine (conj _ (conj _ (conj H3 H4))).
+    + rewrite Hd, H1. reflexivity.
+    + eapply sim2_mono; [exact H2|lia].
 Qed.
 
-Lemma accept_conns_sim checked cfg : forall cs s rs,
-  alive s = true -> sim cfg (lim s) rs -> r_seen rs + N.of_nat (calls_bound cs) <= third ->
-  snd (accept_run true checked cfg s (map conn_of cs)) = spec_server_from cfg rs cs /\
-  alive (fst (accept_run true checked cfg s (map conn_of cs))) = true.
+(** Theorem 1': for every history of [register] calls and configuration changes the decisions
+    are those of the reference counter computed from the configuration current at each call. *)
+Lemma register_ops_refines checked cfg t0 ops :
+  fits (length ops) -> decisions_ops checked cfg t0 ops = map Ok (reference_ops cfg t0 ops).
 Proof.
-  induction cs as [|[[a t] reqs] r IH]; intros s rs Hal Hsim Hfit.
-  - cbn [map accept_run spec_server_from fst snd]. split; [reflexivity|exact Hal].
-  - cbn [map conn_of accept_run spec_server_from calls_bound] in *.
-    unfold accept_step. rewrite Hal. cbn [negb].
-    destruct (step_sim checked cfg (lim s) rs a t Hsim) as (Hd & Hs & Hle & _); [lia|].
-    destruct (register checked cfg (lim s) a t) as [st1 d]. destruct (ref_step cfg rs a t) as [rs1 d'].
-    cbn [fst snd] in *. subst d.
-    assert (Hserve := serve_sim checked cfg a reqs st1 rs1 Hs).
-    destruct d'.
-    + destruct Hserve as (H1 & H2 & H3 & H4); [lia|].
-      destruct (serve_requests checked cfg st1 a reqs) as [[st2 l] c].
-      destruct (spec_requests cfg rs1 a reqs) as [[rs2 l'] c']. cbn [fst snd] in *. subst l' c'.
-      destruct (IH {| alive := true; fails := 0; lim := st2 |} rs2 eq_refl H3) as [E1 E2]; [lia|].
-      destruct (accept_run true checked cfg _ (map conn_of r)) as [s2 os]. cbn [fst snd] in *.
-      split; [rewrite E1; reflexivity|exact E2].
-    + destruct Hserve as (H1 & H2 & H3 & H4); [lia|].
-      destruct (serve_requests checked cfg st1 a reqs) as [[st2 l] c].
-      destruct (spec_requests cfg rs1 a reqs) as [[rs2 l'] c']. cbn [fst snd] in *. subst l' c'.
-      destruct (IH {| alive := true; fails := 0; lim := st2 |} rs2 eq_refl H3) as [E1 E2]; [lia|].
-      destruct (accept_run true checked cfg _ (map conn_of r)) as [s2 os]. cbn [fst snd] in *.
-      split; [rewrite E1; reflexivity|exact E2].
-    + destruct (IH {| alive := true; fails := 0; lim := st1 |} rs1 eq_refl Hs) as [E1 E2]; [lia|].
-      destruct (accept_run true checked cfg _ (map conn_of r)) as [s2 os]. cbn [fst snd] in *.
-      split; [rewrite E1; reflexivity|exact E2].
+  intros Hf. apply (proj1 (fits_third _)) in Hf. unfold decisions_ops, reference_ops.
+  apply (run_ops_sim checked ops cfg 0 (init t0) (qinit t0) (sim2_init 0 t0)). lia.
 Qed.
 
-(** The repaired server equals the reference server (which never stops accepting). *)
-Lemma server_refines_spec_model checked cfg t0 cs :
+Lemma register_ops_no_panic checked cfg t0 ops :
+  fits (length ops) -> Forall (fun d => exists a, d = Ok a) (decisions_ops checked cfg t0 ops).
+Proof.
+  intros Hf. rewrite (register_ops_refines checked cfg t0 ops Hf).
+  apply Forall_forall. intros d Hin. apply in_map_iff in Hin as (a & <- & _). eauto.
+Qed.
+
+(** The configuration after a history is what the setters say; no [register] changes it. *)
+Lemma run_ops_config checked ops : forall cfg st, fst (fst (run_ops checked cfg st ops)) = config_after cfg ops.
+Proof.
+  induction ops as [|o r IH]; intros cfg st; [reflexivity|].
+  destruct o as [a t|m|k|rr|]; cbn [run_ops config_after op_cfg]; try apply IH.
+  destruct (register checked cfg st a t) as [st1 d]. specialize (IH cfg st1).
+  destruct (run_ops checked cfg st1 r) as [[c2 st2] ds]. exact IH.
+Qed.
+
+(** A history without configuration changes is a history of the first model. *)
+Lemma run_ops_constant checked cfg h : forall st,
+  run_ops checked cfg st (map reg_of h) = (cfg, fst (run checked cfg st h), snd (run checked cfg st h)).
+Proof.
+  induction h as [|[a t] r IH]; intros st; cbn [map reg_of fst snd run_ops run]; [reflexivity|].
+  destruct (register checked cfg st a t) as [st1 d]. rewrite IH.
+  destruct (run checked cfg st1 r) as [st2 ds]. reflexivity.
+Qed.
+Lemma decisions_ops_constant checked cfg t0 h :
+  decisions_ops checked cfg t0 (map reg_of h) = decisions checked cfg t0 h.
+Proof. unfold decisions_ops, decisions. rewrite run_ops_constant. reflexivity. Qed.
+
+Lemma map_Ok_inj (A : Type) (l1 l2 : list A) : map (@Ok A) l1 = map (@Ok A) l2 -> l1 = l2.
+Proof.
+  revert l2. induction l1 as [|x r IH]; intros [|y s] H; cbn [map] in H; try discriminate; [reflexivity|].
+  inversion H. f_equal. apply IH. assumption.
+Qed.
+
+(** For a constant configuration "at least the [check_every]-th call since the last sampled
+    one" is "every [check_every]-th call overall": the two references agree. *)
+Lemma reference_ops_constant cfg t0 h :
+  fits (length h) -> reference_ops cfg t0 (map reg_of h) = reference cfg t0 h.
+Proof.
+  intros Hf. apply map_Ok_inj.
+  rewrite <- (register_refines true cfg t0 h Hf), <- (decisions_ops_constant true cfg t0 h).
+  symmetry. apply register_ops_refines. rewrite map_length. exact Hf.
+Qed.
+
+(** Setters before the first call: only the resulting configuration matters. *)
+Definition no_reg (ops : list op) : bool := forallb (fun o => negb (is_reg o)) ops.
+Lemma run_ops_setters checked pre : forall cfg st ops,
+  no_reg pre = true -> run_ops checked cfg st (pre ++ ops) = run_ops checked (config_after cfg pre) st ops.
+Proof.
+  induction pre as [|o r IH]; intros cfg st ops Hn; [reflexivity|].
+  cbn [no_reg forallb] in Hn. apply andb_prop in Hn as [Ho Hr].
+  destruct o as [a t|m|k|rr|]; cbn [is_reg negb] in Ho; try discriminate;
+    cbn [app run_ops config_after]; apply IH; exact Hr.
+Qed.
+
+(** Theorem: every public way to arrive at a configuration gives the same limiter. *)
+Lemma configuration_paths_agree_model checked c0 t0 pre ops :
+  no_reg pre = true ->
+  decisions_ops checked c0 t0 (pre ++ ops) = decisions_ops checked (config_after c0 pre) t0 ops.
+Proof. intros Hn. unfold decisions_ops. rewrite run_ops_setters by exact Hn. reflexivity. Qed.
+
+Lemma setters_establish_model c m k r :
+  let target := {| max_requests := m; check_every := k; reset_after := r |} in
+  config_after c [SetMax m; SetEvery k; SetReset r] = target /\
+  config_after c [SetMax m; SetReset r; SetEvery k] = target /\
+  config_after c [SetEvery k; SetMax m; SetReset r] = target /\
+  config_after c [SetEvery k; SetReset r; SetMax m] = target /\
+  config_after c [SetReset r; SetMax m; SetEvery k] = target /\
+  config_after c [SetReset r; SetEvery k; SetMax m] = target /\
+  config_after c [Disable] = disable c /\
+  config_after c [SetEvery usize_max] = disable c.
+Proof. cbn. repeat split; reflexivity. Qed.
+
+(** Splitting a history. *)
+Lemma run_ops_app checked o1 : forall cfg st o2,
+  run_ops checked cfg st (o1 ++ o2)
+  = (fst (fst (run_ops checked (config_after cfg o1) (snd (fst (run_ops checked cfg st o1))) o2)),
+     snd (fst (run_ops checked (config_after cfg o1) (snd (fst (run_ops checked cfg st o1))) o2)),
+     snd (run_ops checked cfg st o1) ++ snd (run_ops checked (config_after cfg o1) (snd (fst (run_ops checked cfg st o1))) o2)).
+Proof.
+  induction o1 as [|o r IH]; intros cfg st o2.
+  - cbn [app run_ops config_after fst snd]. destruct (run_ops checked cfg st o2) as [[c s] d]. reflexivity.
+  - destruct o as [a t|m|k|rr|]; cbn [app run_ops config_after op_cfg]; try apply IH.
+    destruct (register checked cfg st a t) as [st1 d]. rewrite IH.
+    destruct (run_ops checked cfg st1 r) as [[c2 st2] ds]. cbn [fst snd]. reflexivity.
+Qed.
+
+Lemma ref_ops_app o1 : forall cfg qs o2,
+  ref_ops cfg qs (o1 ++ o2)
+  = (fst (fst (ref_ops (config_after cfg o1) (snd (fst (ref_ops cfg qs o1))) o2)),
+     snd (fst (ref_ops (config_after cfg o1) (snd (fst (ref_ops cfg qs o1))) o2)),
+     snd (ref_ops cfg qs o1) ++ snd (ref_ops (config_after cfg o1) (snd (fst (ref_ops cfg qs o1))) o2)).
+Proof.
+  induction o1 as [|o r IH]; intros cfg qs o2.
+  - cbn [app ref_ops config_after fst snd]. destruct (ref_ops cfg qs o2) as [[c s] d]. reflexivity.
+  - destruct o as [a t|m|k|rr|]; cbn [app ref_ops config_after op_cfg]; try apply IH.
+    destruct (qstep cfg qs a t) as [qs1 d]. rewrite IH.
+    destruct (ref_ops cfg qs1 r) as [[c2 qs2] ds]. cbn [fst snd]. reflexivity.
+Qed.
+
+Lemma ref_ops_length ops : forall cfg qs, length (snd (ref_ops cfg qs ops)) = length (regs ops).
+Proof.
+  induction ops as [|o r IH]; intros cfg qs; [reflexivity|].
+  destruct o as [a t|m|k|rr|]; cbn [ref_ops regs]; try apply IH.
+  destruct (qstep cfg qs a t) as [qs1 d]. specialize (IH cfg qs1).
+  destruct (ref_ops cfg qs1 r) as [[c2 qs2] ds]. cbn [snd length] in *. congruence.
+Qed.
+
+(** The reference's decision for the call [Reg b t] that follows [ops1]. *)
+Lemma reference_ops_at cfg t0 ops1 b t ops2 :
+  nth_error (reference_ops cfg t0 (ops1 ++ Reg b t :: ops2)) (length (regs ops1))
+  = Some (snd (qstep (config_after cfg ops1) (snd (fst (ref_ops cfg (qinit t0) ops1))) b t)).
+Proof.
+  unfold reference_ops. rewrite ref_ops_app. cbn [snd].
+  rewrite nth_error_app2 by (rewrite ref_ops_length; lia).
+  rewrite ref_ops_length, Nat.sub_diag. cbn [ref_ops].
+  destruct (qstep _ _ b t) as [qs1 d]. destruct (ref_ops _ qs1 ops2) as [[c2 qs2] ds]. reflexivity.
+Qed.
+
+Lemma counted_ops_snoc cfg t0 ops1 b t :
+  counted_ops cfg t0 (ops1 ++ [Reg b t]) b
+  = count b (q_counted (fst (qstep (config_after cfg ops1) (snd (fst (ref_ops cfg (qinit t0) ops1))) b t))).
+Proof.
+  unfold counted_ops. rewrite ref_ops_app. cbn [fst snd ref_ops].
+  destruct (qstep _ _ b t) as [qs1 d]. reflexivity.
+Qed.
+
+Lemma qstep_passed cfg qs b t :
+  count b (q_counted (fst (qstep cfg qs b t))) <= max_requests cfg -> snd (qstep cfg qs b t) = Passed.
+Proof.
+  unfold qstep. destruct (check_every cfg =? usize_max); [reflexivity|].
+  destruct (negb (due _ _)); [reflexivity|].
+  destruct (window_over _ _); [reflexivity|].
+  cbn [fst snd q_counted]. intros H. apply ladder_passed. exact H.
+Qed.
+
+(** Isolation with configuration changes: the *current* maximum decides. *)
+Lemma isolation_ops_model checked cfg t0 ops1 b t ops2 :
+  fits (length (ops1 ++ Reg b t :: ops2)) ->
+  counted_ops cfg t0 (ops1 ++ [Reg b t]) b <= max_requests (config_after cfg ops1) ->
+  nth_error (decisions_ops checked cfg t0 (ops1 ++ Reg b t :: ops2)) (length (regs ops1)) = Some (Ok Passed).
+Proof.
+  intros Hf Hc. rewrite (register_ops_refines checked cfg t0 _ Hf), nth_error_map, reference_ops_at.
+  cbn [option_map]. rewrite counted_ops_snoc in Hc. rewrite (qstep_passed _ _ _ _ Hc). reflexivity.
+Qed.
+
+Lemma qstep_counted_le cfg qs a t b :
+  count b (q_counted (fst (qstep cfg qs a t))) <= count b (q_counted qs) + (if a =? b then 1 else 0).
+Proof.
+  unfold qstep. destruct (check_every cfg =? usize_max); [cbn [fst]; lia|].
+  destruct (negb (due _ _)); [cbn [fst q_counted]; lia|].
+  destruct (window_over _ _); cbn [fst q_counted count]; lia.
+Qed.
+Lemma ref_ops_counted_le b ops : forall cfg qs,
+  count b (q_counted (snd (fst (ref_ops cfg qs ops)))) <= count b (q_counted qs) + calls_of b (regs ops).
+Proof.
+  unfold calls_of. induction ops as [|o r IH]; intros cfg qs.
+  - cbn [ref_ops regs map count fst snd]. lia.
+  - destruct o as [a t|m|k|rr|]; cbn [ref_ops regs]; try apply IH.
+    pose proof (qstep_counted_le cfg qs a t b) as H1.
+    destruct (qstep cfg qs a t) as [qs1 d]. cbn [fst] in H1. specialize (IH cfg qs1).
+    destruct (ref_ops cfg qs1 r) as [[c2 qs2] ds]. cbn [fst snd map count] in *. lia.
+Qed.
+Lemma counted_ops_le_calls cfg t0 ops b : counted_ops cfg t0 ops b <= calls_of b (regs ops).
+Proof.
+  unfold counted_ops. pose proof (ref_ops_counted_le b ops cfg (qinit t0)) as H.
+  cbn [qinit q_counted count] in H. lia.
+Qed.
+
+(** Corollary: an address whose own calls so far are at most the current maximum is never limited. *)
+Lemma isolation_own_traffic_ops_model checked cfg t0 ops1 b t ops2 :
+  fits (length (ops1 ++ Reg b t :: ops2)) ->
+  calls_of b (regs (ops1 ++ [Reg b t])) <= max_requests (config_after cfg ops1) ->
+  nth_error (decisions_ops checked cfg t0 (ops1 ++ Reg b t :: ops2)) (length (regs ops1)) = Some (Ok Passed).
+Proof.
+  intros Hf Hc. apply (isolation_ops_model checked cfg t0 ops1 b t ops2 Hf).
+  eapply N.le_trans; [apply counted_ops_le_calls|exact Hc].
+Qed.
+
+Lemma regs_app o1 o2 : regs (o1 ++ o2) = regs o1 ++ regs o2.
+Proof.
+  induction o1 as [|o r IH]; [reflexivity|].
+  destruct o; cbn [app regs]; rewrite ?IH; reflexivity.
+Qed.
+
+Lemma qstep_bound cfg qs b t :
+  action_code (snd (qstep cfg qs b t))
+  <= action_code (ladder (max_requests cfg) (count b (q_counted (fst (qstep cfg qs b t))))) \/
+  snd (qstep cfg qs b t) = Passed.
+Proof.
+  unfold qstep. destruct (check_every cfg =? usize_max); [right; reflexivity|].
+  destruct (negb (due _ _)); [right; reflexivity|].
+  destruct (window_over _ _); [right; reflexivity|].
+  left. cbn [fst snd q_counted]. lia.
+Qed.
+
+(** Others (and configuration changes) never make a verdict harsher than the ladder of the
+    current maximum on the address's own calls so far. *)
+Lemma others_never_hurt_ops_model checked cfg t0 ops1 b t ops2 :
+  fits (length (ops1 ++ Reg b t :: ops2)) ->
+  exists d, nth_error (decisions_ops checked cfg t0 (ops1 ++ Reg b t :: ops2)) (length (regs ops1)) = Some (Ok d) /\
+            action_code d <= action_code (ladder (max_requests (config_after cfg ops1))
+                                                 (calls_of b (regs (ops1 ++ [Reg b t])))).
+Proof.
+  intros Hf. rewrite (register_ops_refines checked cfg t0 _ Hf), nth_error_map, reference_ops_at.
+  cbn [option_map]. eexists. split; [reflexivity|].
+  destruct (qstep_bound (config_after cfg ops1) (snd (fst (ref_ops cfg (qinit t0) ops1))) b t) as [H|H].
+  - eapply N.le_trans; [exact H|]. apply ladder_mono. rewrite <- counted_ops_snoc.
+    apply counted_ops_le_calls.
+  - rewrite H. cbn [action_code]. lia.
+Qed.
+
+(** While disabled (from [disable()] / [set_check_every(usize::MAX)] until the next
+    [set_check_every]) every call passes and no counter moves. *)
+Definition no_set_every (ops : list op) : bool :=
+  forallb (fun o => match o with SetEvery _ => false | _ => true end) ops.
+Lemma disabled_ops_run checked ops : forall cfg st,
+  check_every cfg = usize_max -> no_set_every ops = true ->
+  run_ops checked cfg st ops = (config_after cfg ops, st, repeat (Ok Passed) (length (regs ops))).
+Proof.
+  induction ops as [|o r IH]; intros cfg st Hd Hn; [reflexivity|].
+  cbn [no_set_every forallb] in Hn. apply andb_prop in Hn as [Ho Hr].
+  destruct o as [a t|m|k|rr|]; try discriminate; cbn [run_ops config_after op_cfg regs length repeat];
+    try (apply IH; [first [exact Hd|reflexivity]|exact Hr]).
+  unfold register. rewrite Hd, N.eqb_refl. rewrite (IH cfg st Hd Hr). reflexivity.
+Qed.
+Lemma disabled_ops_model checked cfg t0 ops1 ops2 :
+  no_set_every ops2 = true ->
+  decisions_ops checked cfg t0 (ops1 ++ Disable :: ops2)
+  = decisions_ops checked cfg t0 ops1 ++ repeat (Ok Passed) (length (regs ops2)) /\
+  state_after_ops checked cfg t0 (ops1 ++ Disable :: ops2) = state_after_ops checked cfg t0 ops1.
+Proof.
+  intros Hn. unfold decisions_ops, state_after_ops. rewrite run_ops_app. cbn [fst snd run_ops op_cfg].
+  rewrite (disabled_ops_run checked ops2 (disable (config_after cfg ops1)) _ eq_refl Hn). split; reflexivity.
+Qed.
+
+(** Reset with configuration changes: a due call made when the *current* reset time has
+    passed leaves a new limiter with the current configuration. *)
+Lemma reset_forgets_ops_model checked cfg t0 ops1 a t ops2 R :
+  let cfg1 := config_after cfg ops1 in
+  reset_after cfg1 = Some R -> check_every cfg1 <> usize_max ->
+  check_every cfg1 <= iteration (state_after_ops checked cfg t0 ops1) + 1 ->
+  R <= t - win_start (state_after_ops checked cfg t0 ops1) ->
+  decisions_ops checked cfg t0 (ops1 ++ Reg a t :: ops2)
+  = decisions_ops checked cfg t0 ops1 ++ Ok Passed :: decisions_ops checked cfg1 t ops2.
+Proof.
+  intros cfg1 HR Hne Hk Hle. unfold decisions_ops, state_after_ops in *. rewrite run_ops_app. cbn [snd]. f_equal.
+  fold cfg1. set (st := snd (fst (run_ops checked cfg (init t0) ops1))) in *.
+  destruct (register_after_interval checked cfg1 st a t R HR Hle) as [Hd Hst].
+  specialize (Hst Hne Hk). cbn [run_ops].
+  destruct (register checked cfg1 st a t) as [st1 d]. cbn [fst snd] in *. subst st1 d.
+  destruct (run_ops checked cfg1 (init t) ops2) as [[c2 s2] ds]; reflexivity.
+Qed.
+
+(** ... and such a call comes within [check_every] calls (current value) when no setter intervenes. *)
+Lemma reset_within_check_every_ops_model checked cfg t0 ops1 h2 R :
+  let cfg1 := config_after cfg ops1 in
+  reset_after cfg1 = Some R -> check_every cfg1 <> usize_max ->
+  h2 <> [] -> check_every cfg1 <= N.of_nat (length h2) ->
+  Forall (fun e => R <= snd e - win_start (state_after_ops checked cfg t0 ops1)) h2 ->
+  exists p a t s, h2 = p ++ (a, t) :: s /\
+    state_after_ops checked cfg t0 (ops1 ++ map reg_of (p ++ [(a, t)])) = init t /\
+    decisions_ops checked cfg t0 (ops1 ++ map reg_of (p ++ [(a, t)]))
+    = decisions_ops checked cfg t0 ops1 ++ repeat (Ok Passed) (S (length p)) /\
+    (p = [] \/ N.of_nat (length p) < check_every cfg1).
+Proof.
+  intros cfg1 HR Hne Hnil Hlen Hall. unfold state_after_ops, decisions_ops in *.
+  destruct (reset_within checked cfg1 R HR Hne h2 (snd (fst (run_ops checked cfg (init t0) ops1))) Hnil ltac:(lia) Hall)
+    as (p & a & t & s & Hsplit & Hrun & Hp).
+  exists p, a, t, s. split; [exact Hsplit|]. rewrite run_ops_app. fold cfg1. rewrite run_ops_constant, Hrun. cbn [fst snd].
+  split; [reflexivity|]. split; [reflexivity|]. destruct Hp as [Hp|Hp]; [left; exact Hp|right; lia].
+Qed.
+
+(** [iteration.fetch_add(1) + 1] cannot overflow whatever the setters do. *)
+Lemma register_iter_lt checked cfg st a t :
+  check_every cfg <= usize_max -> iteration st < usize_max -> iteration (fst (register checked cfg st a t)) < usize_max.
+Proof.
+  unfold register. intros Hk H.
+  destruct (check_every cfg =? usize_max); [exact H|]. rewrite usize_val in *.
+  destruct (N.ltb_spec (iteration st + 1) (check_every cfg)); [cbn [fst iteration]; lia|].
+  destruct (window_over _ _); [cbn [fst iteration]; lia|].
+  destruct (entry_bump checked a (conn_map st)) as [[rq m']| |]; try (cbn [fst iteration]; lia).
+  destruct (rq <=? max_requests cfg); [cbn [fst iteration]; lia|].
+  destruct (mul3_usize checked (max_requests cfg)); cbn [fst iteration]; lia.
+Qed.
+Definition cfgs_ok (cfg : config) (ops : list op) : Prop :=
+  check_every cfg <= usize_max /\ Forall (fun o => match o with SetEvery k => k <= usize_max | _ => True end) ops.
+Lemma run_ops_iter_lt checked ops : forall cfg st,
+  cfgs_ok cfg ops -> iteration st < usize_max ->
+  iteration (snd (fst (run_ops checked cfg st ops))) < usize_max.
+Proof.
+  induction ops as [|o r IH]; intros cfg st [Hk Hall] H; [exact H|].
+  inversion Hall as [|x l Ho Hr]; subst.
+  destruct o as [a t|m|k|rr|]; cbn [run_ops op_cfg];
+    try (apply IH; [split; [cbn; first [exact Hk | exact Ho | rewrite usize_val; lia] | exact Hr] | exact H]).
+  pose proof (register_iter_lt checked cfg st a t Hk H) as H1.
+  destruct (register checked cfg st a t) as [st1 d]. cbn [fst] in H1.
+  specialize (IH cfg st1 (conj Hk Hr) H1).
+  destruct (run_ops checked cfg st1 r) as [[c2 st2] ds]. exact IH.
+Qed.
+Lemma iteration_ops_bounded checked cfg t0 ops :
+  cfgs_ok cfg ops -> iteration (state_after_ops checked cfg t0 ops) + 1 <= usize_max.
+Proof.
+  intros Hok. pose proof (run_ops_iter_lt checked ops cfg (init t0) Hok) as H.
+  unfold state_after_ops. cbn [init iteration] in H. rewrite usize_val in *.
+  specialize (H ltac:(lia)). lia.
+Qed.
+
+(** * The server *)
+Definition sim2p (n : N) (p : lstate * lstate) (q : qstate * qstate) : Prop :=
+  sim2 n (fst p) (fst q) /\ sim2 n (snd p) (snd q).
+Lemma sim2p_mono n m p q : sim2p n p q -> n <= m -> sim2p m p q.
+Proof. intros [H1 H2] Hle. split; eapply sim2_mono; eassumption. Qed.
+Lemma after_pre_sim n sh st qs p q : sim2 n st qs -> sim2p n p q -> sim2p n (after_pre sh st p) (after_pre sh qs q).
+Proof. intros Hs [H1 H2]. unfold after_pre, sim2p. destruct sh; cbn [fst snd]; split; assumption. Qed.
+Lemma after_host_sim n sh st qs p q : sim2 n st qs -> sim2p n p q -> sim2p n (after_host sh st p) (after_host sh qs q).
+Proof. intros Hs [H1 H2]. unfold after_host, sim2p. destruct sh; cbn [fst snd]; split; assumption. Qed.
+Lemma sim2p_start n t0 : sim2p n (init t0, init t0) (qinit t0, qinit t0).
+Proof. split; apply sim2_init. Qed.
+
+Lemma serve_sim checked sc a ts : forall n p q,
+  sim2p n p q -> n + N.of_nat (length ts) <= third ->
+  snd (fst (serve_requests checked sc p a ts)) = snd (fst (spec_requests sc q a ts)) /\
+  snd (serve_requests checked sc p a ts) = snd (spec_requests sc q a ts) /\
+  sim2p (n + N.of_nat (length ts)) (fst (fst (serve_requests checked sc p a ts))) (fst (fst (spec_requests sc q a ts))).
+Proof.
+  induction ts as [|t r IH]; intros n p q Hsim Hfit; cbn [serve_requests spec_requests].
+  - cbn [fst snd length]. refine (conj eq_refl (conj eq_refl _)). eapply sim2p_mono; [exact Hsim|lia].
+  - cbn [length] in Hfit.
+    destruct (qstep_sim checked (host_cfg sc) n (snd p) (snd q) a t (proj2 Hsim)) as [Hd Hs]; [lia|].
+    destruct (register checked (host_cfg sc) (snd p) a t) as [st1 d]. destruct (qstep (host_cfg sc) (snd q) a t) as [q1 d'].
+    cbn [fst snd] in *. subst d.
+    assert (Hp1 : sim2p (n + 1) (after_host (shared sc) st1 p) (after_host (shared sc) q1 q)).
+    { apply after_host_sim; [exact Hs|]. eapply sim2p_mono; [exact Hsim|lia]. }
+    destruct (IH (n + 1) _ _ Hp1) as (H1 & H2 & H3); [lia|].
+    destruct d'.
+    + destruct (serve_requests checked sc _ a r) as [[p2 l] c].
+      destruct (spec_requests sc _ a r) as [[q2 l'] c']. cbn [fst snd length] in *.
+      refine (conj _ (conj _ _)); try congruence. eapply sim2p_mono; [exact H3|lia].
+    + destruct (serve_requests checked sc _ a r) as [[p2 l] c].
+      destruct (spec_requests sc _ a r) as [[q2 l'] c']. cbn [fst snd length] in *.
+      refine (conj _ (conj _ _)); try congruence. eapply sim2p_mono; [exact H3|lia].
+    + cbn [fst snd length]. refine (conj eq_refl (conj eq_refl _)). eapply sim2p_mono; [exact Hp1|lia].
+Qed.
+
+(** Once the loop has ended nothing changes any more. *)
+Lemma accept_run_ended odc checked sc evs : forall s,
+  status s <> Running -> status (fst (accept_run odc checked sc s evs)) = status s.
+Proof.
+  induction evs as [|e r IH]; intros s Hs; [reflexivity|].
+  cbn [accept_run]. unfold accept_step.
+  destruct (status s) eqn:E; try contradiction;
+    (specialize (IH s ltac:(rewrite E; discriminate));
+     destruct (accept_run odc checked sc s r) as [s2 os]; cbn [fst] in *; congruence).
+Qed.
+
+(** One accepted connection from related states. *)
+Lemma accept_conn_sim checked sc s q n a t reqs :
+  status s = Running -> sim2p n (lims s) q -> n + N.of_nat (S (length reqs)) <= third ->
+  exists s1 q1 res,
+    accept_step true checked sc s (Conn a t reqs) = (s1, Some res) /\
+    status s1 = Running /\ fails s1 = 0 /\ res <> Refused /\
+    sim2p (n + N.of_nat (S (length reqs))) (lims s1) q1 /\
+    (forall r, spec_server_from sc q ((a, t, reqs) :: r) = res :: spec_server_from sc q1 r).
+Proof.
+  intros Hal Hsim Hfit. unfold accept_step. rewrite Hal. cbn [spec_server_from].
+  destruct (qstep_sim checked (pre_cfg sc) n (fst (lims s)) (fst q) a t (proj1 Hsim)) as [Hd Hs]; [lia|].
+  destruct (register checked (pre_cfg sc) (fst (lims s)) a t) as [st1 d].
+  destruct (qstep (pre_cfg sc) (fst q) a t) as [q1 d'].
+  cbn [fst snd] in *. subst d.
+  assert (Hp1 : sim2p (n + 1) (after_pre (shared sc) st1 (lims s)) (after_pre (shared sc) q1 q)).
+  { apply after_pre_sim; [exact Hs|]. eapply sim2p_mono; [exact Hsim|lia]. }
+  assert (Hserve := serve_sim checked sc a reqs (n + 1) _ _ Hp1).
+  destruct d'.
+  - destruct Hserve as (H1 & H2 & H3); [lia|].
+    destruct (serve_requests checked sc _ a reqs) as [[p2 l] c].
+    destruct (spec_requests sc _ a reqs) as [[q2 l'] c']. cbn [fst snd] in *. subst l' c'.
+    eexists _, q2, _. split; [reflexivity|]. cbn [status fails lims].
+    refine (conj eq_refl (conj eq_refl (conj _ (conj _ _)))); [discriminate| |reflexivity].
+    eapply sim2p_mono; [exact H3|lia].
+  - destruct Hserve as (H1 & H2 & H3); [lia|].
+    destruct (serve_requests checked sc _ a reqs) as [[p2 l] c].
+    destruct (spec_requests sc _ a reqs) as [[q2 l'] c']. cbn [fst snd] in *. subst l' c'.
+    eexists _, q2, _. split; [reflexivity|]. cbn [status fails lims].
+    refine (conj eq_refl (conj eq_refl (conj _ (conj _ _)))); [discriminate| |reflexivity].
+    eapply sim2p_mono; [exact H3|lia].
+  - eexists _, _, _. split; [reflexivity|]. cbn [status fails lims].
+    refine (conj eq_refl (conj eq_refl (conj _ (conj _ _)))); [discriminate| |reflexivity].
+    eapply sim2p_mono; [exact Hp1|lia].
+Qed.
+
+Lemma accept_conns_sim checked sc : forall cs s q n,
+  status s = Running -> sim2p n (lims s) q -> n + N.of_nat (calls_bound cs) <= third ->
+  snd (accept_run true checked sc s (map conn_of cs)) = spec_server_from sc q cs /\
+  status (fst (accept_run true checked sc s (map conn_of cs))) = Running.
+Proof.
+  induction cs as [|[[a t] reqs] r IH]; intros s q n Hal Hsim Hfit.
+  - cbn [map accept_run spec_server_from fst snd]. split; [reflexivity|exact Hal].
+  - cbn [map conn_of accept_run calls_bound] in *.
+    destruct (accept_conn_sim checked sc s q n a t reqs Hal Hsim) as (s1 & q1 & res & Hstep & Hal1 & _ & _ & Hs1 & Hspec); [lia|].
+    rewrite Hstep, Hspec.
+    destruct (IH s1 q1 _ Hal1 Hs1) as [E1 E2]; [lia|].
+    destruct (accept_run true checked sc s1 (map conn_of r)) as [s2 os]. cbn [fst snd] in *.
+    split; [rewrite E1; reflexivity|exact E2].
+Qed.
+
+(** The server equals the reference server (which never stops accepting). *)
+Lemma server_refines_spec_model checked sc t0 cs :
   fits (calls_bound cs) ->
-  accept_loop checked cfg t0 (map conn_of cs) = (spec_server cfg t0 cs, true).
+  accept_loop checked sc t0 (map conn_of cs) = (spec_server sc t0 cs, Running).
 Proof.
   intros Hf. apply (proj1 (fits_third _)) in Hf. unfold accept_loop, spec_server.
-  destruct (accept_conns_sim checked cfg cs (astart t0) (rinit t0) eq_refl (sim_init cfg t0)) as [E1 E2].
-  { cbn [rinit r_seen]. lia. }
-  destruct (accept_run true checked cfg (astart t0) (map conn_of cs)) as [s os]. cbn [fst snd] in *.
+  destruct (accept_conns_sim checked sc cs (astart t0) (qinit t0, qinit t0) 0 eq_refl (sim2p_start 0 t0)) as [E1 E2]; [lia|].
+  destruct (accept_run true checked sc (astart t0) (map conn_of cs)) as [s os]. cbn [fst snd] in *.
   rewrite E1, E2. reflexivity.
 Qed.
 
-(** Theorem 5: the accept loop survives every event list (no shutdown request, never more
-    than 100 consecutive accept errors), and nobody is ever refused. *)
-Lemma accept_alive checked cfg : forall evs s rs,
-  alive s = true -> sim cfg (lim s) rs -> r_seen rs + N.of_nat (ev_calls_bound evs) <= third ->
-  existsb is_shutdown evs = false -> max_err_run (fails s) evs <= 100 ->
-  alive (fst (accept_run true checked cfg s evs)) = true /\
-  ~ In Refused (snd (accept_run true checked cfg s evs)).
+(** Whether and how the loop ends is [loop_spec]: a function of the kinds of the accept events
+    alone.  While it runs nobody is refused. *)
+Lemma accept_status checked sc : forall evs s q n,
+  status s = Running -> sim2p n (lims s) q -> n + N.of_nat (ev_calls_bound evs) <= third ->
+  status (fst (accept_run true checked sc s evs)) = loop_spec (fails s) evs /\
+  (loop_spec (fails s) evs = Running -> ~ In Refused (snd (accept_run true checked sc s evs))).
 Proof.
-  induction evs as [|e r IH]; intros s rs Hal Hsim Hfit Hsd Herr.
-  - cbn [accept_run fst snd]. split; [exact Hal|intros []].
-  - cbn [accept_run]. unfold accept_step. rewrite Hal. cbn [negb].
-    destruct e as [a t reqs| |].
-    + cbn [ev_calls_bound existsb is_shutdown orb max_err_run] in *.
-      apply N.max_lub_iff in Herr as [_ Herr].
-      destruct (step_sim checked cfg (lim s) rs a t Hsim) as (Hd & Hs & Hle & _); [lia|].
-      destruct (register checked cfg (lim s) a t) as [st1 d]. destruct (ref_step cfg rs a t) as [rs1 d'].
-      cbn [fst snd] in *. subst d.
-      assert (Hserve := serve_sim checked cfg a reqs st1 rs1 Hs).
-      destruct d'.
-      * destruct Hserve as (H1 & H2 & H3 & H4); [lia|].
-        destruct (serve_requests checked cfg st1 a reqs) as [[st2 l] c]. cbn [fst snd] in *.
-        destruct (IH {| alive := true; fails := 0; lim := st2 |} _ eq_refl H3) as [E1 E2]; try assumption; [lia|].
-        destruct (accept_run true checked cfg _ r) as [s2 os]. cbn [fst snd] in *.
-        split; [exact E1|]. intros [H|H]; [discriminate|contradiction].
-      * destruct Hserve as (H1 & H2 & H3 & H4); [lia|].
-        destruct (serve_requests checked cfg st1 a reqs) as [[st2 l] c]. cbn [fst snd] in *.
-        destruct (IH {| alive := true; fails := 0; lim := st2 |} _ eq_refl H3) as [E1 E2]; try assumption; [lia|].
-        destruct (accept_run true checked cfg _ r) as [s2 os]. cbn [fst snd] in *.
-        split; [exact E1|]. intros [H|H]; [discriminate|contradiction].
-      * destruct (IH {| alive := true; fails := 0; lim := st1 |} _ eq_refl Hs) as [E1 E2]; try assumption; [lia|].
-        destruct (accept_run true checked cfg _ r) as [s2 os]. cbn [fst snd] in *.
-        split; [exact E1|]. intros [H|H]; [discriminate|contradiction].
-    + cbn [ev_calls_bound existsb is_shutdown orb max_err_run] in *.
-      apply N.max_lub_iff in Herr as [Hf1 Herr].
-      replace (100 <? fails s + 1) with false by lia. cbn [negb].
-      destruct (IH {| alive := true; fails := fails s + 1; lim := lim s |} rs eq_refl Hsim) as [E1 E2]; try assumption.
-      destruct (accept_run true checked cfg _ r) as [s2 os]. cbn [fst snd] in *. split; assumption.
-    + cbn [existsb is_shutdown orb] in Hsd. discriminate.
+  induction evs as [|e r IH]; intros s q n Hal Hsim Hfit.
+  - cbn [accept_run fst snd loop_spec]. split; [exact Hal|intros _ []].
+  - destruct e as [a t reqs| | | |oh a t].
+    + (* accepted connection *)
+      cbn [accept_run ev_calls_bound loop_spec] in *.
+      destruct (accept_conn_sim checked sc s q n a t reqs Hal Hsim) as (s1 & q1 & res & Hstep & Hal1 & Hf1 & Hres & Hs1 & _); [lia|].
+      rewrite Hstep.
+      destruct (IH s1 q1 _ Hal1 Hs1) as [E1 E2]; [lia|]. rewrite Hf1 in *.
+      destruct (accept_run true checked sc s1 r) as [s2 os]. cbn [fst snd] in *.
+      split; [exact E1|]. intros Hrun [H|H]; [congruence|exact (E2 Hrun H)].
+    + (* accept error *)
+      cbn [accept_run ev_calls_bound loop_spec] in *. unfold accept_step. rewrite Hal.
+      destruct (fail_threshold <? fails s + 1) eqn:Hth.
+      * pose proof (accept_run_ended true checked sc r
+                      {| status := ReturnedErr; fails := fails s + 1; lims := lims s |} ltac:(discriminate)) as Hend.
+        destruct (accept_run true checked sc _ r) as [s2 os]. cbn [fst snd status] in *.
+        split; [exact Hend|discriminate].
+      * destruct (IH {| status := Running; fails := fails s + 1; lims := lims s |} q n eq_refl Hsim Hfit) as [E1 E2].
+        destruct (accept_run true checked sc _ r) as [s2 os]. cbn [fst snd fails] in *. split; assumption.
+    + (* QUIC time-out *)
+      cbn [accept_run ev_calls_bound loop_spec] in *. unfold accept_step. rewrite Hal.
+      destruct (IH s q n Hal Hsim Hfit) as [E1 E2].
+      destruct (accept_run true checked sc s r) as [s2 os]. cbn [fst snd] in *. split; assumption.
+    + (* shutdown *)
+      cbn [accept_run ev_calls_bound loop_spec] in *. unfold accept_step. rewrite Hal.
+      pose proof (accept_run_ended true checked sc r
+                    {| status := ReturnedOk; fails := fails s; lims := lims s |} ltac:(discriminate)) as Hend.
+      destruct (accept_run true checked sc _ r) as [s2 os]. cbn [fst snd status] in *.
+      split; [exact Hend|discriminate].
+    + (* a call made by another task *)
+      cbn [accept_run ev_calls_bound loop_spec] in *. unfold accept_step. rewrite Hal.
+      destruct oh.
+      * destruct (qstep_sim checked (host_cfg sc) n (snd (lims s)) (snd q) a t (proj2 Hsim)) as [_ Hs]; [lia|].
+        assert (Hp1 : sim2p (n + 1) (after_host (shared sc) (fst (register checked (host_cfg sc) (snd (lims s)) a t)) (lims s))
+                                    (after_host (shared sc) (fst (qstep (host_cfg sc) (snd q) a t)) q)).
+        { apply after_host_sim; [exact Hs|]. eapply sim2p_mono; [exact Hsim|lia]. }
+        destruct (IH {| status := Running; fails := fails s; lims := _ |} _ (n + 1) eq_refl Hp1) as [E1 E2]; [lia|].
+        destruct (accept_run true checked sc _ r) as [s2 os]. cbn [fst snd fails] in *. split; assumption.
+      * destruct (qstep_sim checked (pre_cfg sc) n (fst (lims s)) (fst q) a t (proj1 Hsim)) as [_ Hs]; [lia|].
+        assert (Hp1 : sim2p (n + 1) (after_pre (shared sc) (fst (register checked (pre_cfg sc) (fst (lims s)) a t)) (lims s))
+                                    (after_pre (shared sc) (fst (qstep (pre_cfg sc) (fst q) a t)) q)).
+        { apply after_pre_sim; [exact Hs|]. eapply sim2p_mono; [exact Hsim|lia]. }
+        destruct (IH {| status := Running; fails := fails s; lims := _ |} _ (n + 1) eq_refl Hp1) as [E1 E2]; [lia|].
+        destruct (accept_run true checked sc _ r) as [s2 os]. cbn [fst snd fails] in *. split; assumption.
 Qed.
 
-Lemma listener_survives_model checked cfg t0 evs :
-  fits (ev_calls_bound evs) -> existsb is_shutdown evs = false -> max_err_run 0 evs <= 100 ->
-  snd (accept_loop checked cfg t0 evs) = true /\ ~ In Refused (fst (accept_loop checked cfg t0 evs)).
+Lemma listener_status_model checked sc t0 evs :
+  fits (ev_calls_bound evs) ->
+  snd (accept_loop checked sc t0 evs) = loop_spec 0 evs /\
+  (loop_spec 0 evs = Running -> ~ In Refused (fst (accept_loop checked sc t0 evs))).
 Proof.
-  intros Hf Hsd Herr. apply (proj1 (fits_third _)) in Hf. unfold accept_loop.
-  destruct (accept_alive checked cfg evs (astart t0) (rinit t0) eq_refl (sim_init cfg t0)) as [E1 E2];
-    [cbn [rinit r_seen]; lia | exact Hsd | exact Herr |].
-  destruct (accept_run true checked cfg (astart t0) evs) as [s os]. cbn [fst snd] in *. split; assumption.
+  intros Hf. apply (proj1 (fits_third _)) in Hf. unfold accept_loop.
+  destruct (accept_status checked sc evs (astart t0) (qinit t0, qinit t0) 0 eq_refl (sim2p_start 0 t0)) as [E1 E2]; [lia|].
+  destruct (accept_run true checked sc (astart t0) evs) as [s os]. cbn [fst snd astart fails] in *. split; assumption.
+Qed.
+
+Lemma loop_spec_running evs : forall f,
+  f <= fail_threshold ->
+  (loop_spec f evs = Running <-> existsb is_shutdown evs = false /\ max_err_run f evs <= fail_threshold).
+Proof.
+  unfold fail_threshold.
+  induction evs as [|e r IH]; intros f Hf.
+  - cbn [loop_spec existsb max_err_run]. split; [intros _; split; [reflexivity|exact Hf]|reflexivity].
+  - destruct e as [a t reqs| | | |oh a t]; cbn [loop_spec existsb is_shutdown orb max_err_run]; unfold fail_threshold.
+    + rewrite (IH 0 ltac:(lia)). rewrite N.max_lub_iff. tauto.
+    + destruct (N.ltb_spec 100 (f + 1)) as [Hlt|Hge].
+      * split; [discriminate|]. intros [_ H]. apply N.max_lub_iff in H. lia.
+      * rewrite (IH (f + 1) Hge). rewrite N.max_lub_iff. tauto.
+    + rewrite (IH f Hf). rewrite N.max_lub_iff. tauto.
+    + split; [discriminate|]. intros [H _]. discriminate.
+    + rewrite (IH f Hf). rewrite N.max_lub_iff. tauto.
+Qed.
+
+(** Theorem 5: the accept loop survives every event list (no shutdown request, never more
+    than 100 consecutive accept errors), and nobody is ever refused; and these are the only
+    ways in which it ends. *)
+Lemma listener_survives_model checked sc t0 evs :
+  fits (ev_calls_bound evs) -> existsb is_shutdown evs = false -> max_err_run 0 evs <= 100 ->
+  snd (accept_loop checked sc t0 evs) = Running /\ ~ In Refused (fst (accept_loop checked sc t0 evs)).
+Proof.
+  intros Hf Hsd Herr. destruct (listener_status_model checked sc t0 evs Hf) as [E1 E2].
+  assert (Hrun : loop_spec 0 evs = Running).
+  { apply (loop_spec_running evs 0); [unfold fail_threshold; lia|]. split; assumption. }
+  split; [rewrite E1; exact Hrun|exact (E2 Hrun)].
+Qed.
+
+Lemma listener_stops_only_model checked sc t0 evs :
+  fits (ev_calls_bound evs) -> snd (accept_loop checked sc t0 evs) <> Running ->
+  existsb is_shutdown evs = true \/ 100 < max_err_run 0 evs.
+Proof.
+  intros Hf Hne. destruct (listener_status_model checked sc t0 evs Hf) as [E1 _]. rewrite E1 in Hne.
+  pose proof (loop_spec_running evs 0 ltac:(unfold fail_threshold; lia)) as Hiff. unfold fail_threshold in Hiff.
+  destruct (existsb is_shutdown evs) eqn:Hs; [left; reflexivity|right].
+  destruct (N.ltb_spec 100 (max_err_run 0 evs)) as [H|H]; [exact H|].
+  exfalso. apply Hne. apply Hiff. split; [reflexivity|exact H].
 Qed.
 
 (** kvarn 0.6.3: one address at the drop level ends the listener; the next client (another
     address, which made no request before) is refused. *)
 Lemma listener_dies_063_witness :
-  let cfg := {| max_requests := 0; check_every := 1; reset_after := Some 10000 |} in
-  accept_loop_063 true cfg 0 [Conn 1 0 []; Conn 2 1 [1]] = ([Served [] true; Refused], false) /\
-  accept_loop true cfg 0 [Conn 1 0 []; Conn 2 1 [1]] = ([Served [] true; Served [] true], true).
+  let sc := same_limiter {| max_requests := 0; check_every := 1; reset_after := Some 10000 |} in
+  accept_loop_063 true sc 0 [Conn 1 0 []; Conn 2 1 [1]] = ([Served [] true; Refused], ReturnedOk) /\
+  accept_loop true sc 0 [Conn 1 0 []; Conn 2 1 [1]] = ([Served [] true; Served [] true], Running).
 Proof. vm_compute. split; reflexivity. Qed.
